@@ -6,11 +6,13 @@
 //
 // cbmc: is_typename() is replaced (goto-instrument --replace-calls) by stub_is_typename(), a
 // membership test over the ten keywords (the real one needs the 30-entry keyword HashMap);
+// equal() is the specification of tokenize.c's equal() specialised to pooled tokens (see below);
 // the native replay runs the real is_typename() with the real hashmap.c.
 #define VERIF_ON_EXIT(code) on_diag()
 static void on_diag(void);
 #include "common.h"
 #include "parse.c"
+#define PENV_CUSTOM_EQUAL
 #include "penv.h"
 
 #ifndef NT
@@ -20,24 +22,38 @@ static void on_diag(void);
 #define MODE 0      // 0: any sequence; 1: at most one `signed` and one `unsigned`; 2: a duplicated sign keyword
 #endif
 
-enum { K_VOID, K_BOOL, K_CHAR, K_SHORT, K_INT, K_LONG, K_FLOAT, K_DOUBLE, K_SIGNED, K_UNSIGNED, NKW };
+enum { K_VOID, K_BOOL, K_CHAR, K_SHORT, K_INT, K_LONG, K_FLOAT, K_DOUBLE, K_SIGNED, K_UNSIGNED, NKW, K_SEMI = NKW,
+       NPOOL };
 #define SPMAX 9
-static const char spell[NKW][SPMAX] = {"void", "_Bool", "char", "short", "int", "long", "float", "double", "signed",
-                                       "unsigned"};
-static const int spell_len[NKW] = {4, 5, 4, 5, 3, 4, 5, 6, 6, 8};
+static const char spell[NPOOL][SPMAX] = {"void", "_Bool", "char", "short", "int", "long", "float", "double", "signed",
+                                         "unsigned", ";"};
+static const int spell_len[NPOOL] = {4, 5, 4, 5, 3, 4, 5, 6, 6, 8, 1};
 
 struct IN_t { uint8_t n; uint8_t kw[NT]; } IN;
 struct IN_t nondet_IN(void);
 
+// Token invariant of this harness: loc points at pool entry `line_no`, len is its length.  (line_no
+// is otherwise unused by the parser.)  equal() below is the specification of tokenize.c's equal()
+// -- "the token's spelling is the C string op" -- evaluated through that invariant: the comparison of
+// the pooled spelling with the string literal `op` folds to a constant during symbolic execution, so
+// e.g. consume(&tok, tok, "const") is decided without creating a symbolic token pointer.  The
+// invariant is asserted for every token after declspec() returns.
+static bool lit_eq(const char *a, const char *b) {
+  int i = 0;
+  for (; a[i] != '\0'; i++)
+    if (a[i] != b[i]) return false;
+  return b[i] == '\0';
+}
+bool equal(Token *tok, char *op) {
+  bool r = false;
+  for (int j = 0; j < NPOOL; j++)
+    if (lit_eq(spell[j], op) && tok->line_no == j)
+      r = true;
+  return r;
+}
+
 bool stub_is_typename(Token *tok) {
-  for (int k = 0; k < NKW; k++) {
-    if (tok->len != spell_len[k]) continue;
-    bool same = true;
-    for (int j = 0; j < SPMAX - 1; j++)
-      if (j < spell_len[k] && tok->loc[j] != spell[k][j]) same = false;
-    if (same) return true;
-  }
-  return false;
+  return tok->line_no < NKW;     // the ten keywords are type names, ";" is not
 }
 
 // find_typedef() looks identifiers up in the scope HashMap; on keyword tokens it returns NULL before
@@ -99,23 +115,19 @@ void h_declspec(void) {
   HAVOC_IN();
   __CPROVER_assume(IN.n >= 1 && IN.n <= NT);
   int c[NKW] = {0};
-  static Token toks[NT + 1];            // static: zero-initialised without memset
-  static char text[NT + 1][SPMAX];      // each token's spelling lives in its own buffer (pooled alphabet)
-  // tokens 0..n-1 are keywords, every later token is ";" (no symbolic-index writes: keeps each
-  // token's kind/len/loc simple for the symbolic executor)
+  static Token toks[NT + 1];
   for (int i = 0; i <= NT; i++) {
-    toks[i].kind = TK_KEYWORD;          // the kind of ";" is irrelevant to declspec/is_typename
-    toks[i].loc = text[i];
-    toks[i].next = &toks[i < NT ? i + 1 : NT];   // the last ";" links to itself (never followed)
+    int k = K_SEMI;                       // tokens 0..n-1 are keywords, every later token is ";"
     if (i < NT && i < IN.n) {
       __CPROVER_assume(IN.kw[i] < NKW);
-      c[IN.kw[i]]++;
-      for (int j = 0; j < SPMAX; j++) text[i][j] = spell[IN.kw[i]][j];
-      toks[i].len = spell_len[IN.kw[i]];
-    } else {
-      text[i][0] = ';';
-      toks[i].len = 1;
+      k = IN.kw[i];
+      c[k]++;
     }
+    toks[i].kind = TK_KEYWORD;            // the kind of ";" is irrelevant to declspec/is_typename
+    toks[i].line_no = k;
+    toks[i].loc = (char *)spell[k];
+    toks[i].len = spell_len[k];
+    toks[i].next = &toks[i < NT ? i + 1 : NT];   // the last ";" links to itself (never followed)
   }
 #if MODE == 1
   __CPROVER_assume(c[K_SIGNED] <= 1 && c[K_UNSIGNED] <= 1);
@@ -127,8 +139,12 @@ void h_declspec(void) {
   Token *rest = 0;
   Type *ty = declspec(&rest, &toks[0], NULL);
 
+  for (int i = 0; i <= NT; i++)
+    VASSERT(toks[i].line_no >= 0 && toks[i].line_no < NPOOL && toks[i].loc == spell[toks[i].line_no] &&
+            toks[i].len == spell_len[toks[i].line_no], "token invariant (loc/len = pool entry line_no)");
   VASSERT(expect.valid, "declspec accepts a specifier multiset that C11 6.7.2p2 does not list");
   VASSERT(rest == &toks[IN.n], "declspec consumes exactly the specifiers");
+  if (!expect.valid) return;
   VASSERT(ty->kind == expect.kind, "type kind equals C11/psABI table");
   VASSERT(ty->size == expect.size && ty->align == expect.size, "size and alignment equal psABI table");
   if (expect.kind == TY_CHAR || expect.kind == TY_SHORT || expect.kind == TY_INT || expect.kind == TY_LONG)
